@@ -61,11 +61,12 @@ def _run(params, values):
         na = nlines(a)
         probe, _ = block_parse(md, a + "\nzz\n")
         va = _views(ta)
-        # "A ends closed": a paragraph after a blank line starts a NEW top-level block.  Decided on structure only (types, levels,
-        # maps) - not on the fields the property itself is about (hidden/tight flags, content), or a leak would hide itself here.
-        shape_a = [(t.type, t.level, t.map) for t in ta]
-        shape_p = [(t.type, t.level, t.map) for t in probe]
-        if len(shape_p) != len(shape_a) + 3 or shape_p[: len(shape_a)] != shape_a or probe[-3].type != "paragraph_open" \
+        # "A ends closed": a paragraph after a blank line starts a NEW top-level block (the probe ends with a level-0 paragraph "zz" on
+        # its own line and has exactly one more top-level block than A).  A's own tokens are NOT compared here: that is the conclusion
+        # of the property, and comparing them would let a leak hide itself behind the assumption.
+        top_a = sum(1 for t in ta if t.level == 0 and t.nesting >= 0)
+        top_p = sum(1 for t in probe if t.level == 0 and t.nesting >= 0)
+        if len(probe) < 3 or top_p != top_a + 1 or probe[-3].type != "paragraph_open" \
                 or probe[-3].map != [na + 1, na + 2] or probe[-2].content != "zz" or probe[-3].level != 0:
             return [], "assume: A does not end closed"
         tb, _ = block_parse(md, b)
@@ -83,7 +84,14 @@ def _run(params, values):
     if len(exp) != len(got):
         recs.append({"key": "concat-token-count", "detail": f"{len(got)} vs {len(va)}+{len(tb)}"})
     else:
+        CONT = ("bullet_list_open", "ordered_list_open", "list_item_open", "blockquote_open")
         for i in range(len(exp)):
+            if exp[i] != got[i] and i < len(va) and exp[i][0] in CONT and exp[i][:-2] == got[i][:-2] and exp[i][-1] == got[i][-1]:
+                # a container that ends at the end of A may count the separating blank line in its map (existing behaviour,
+                # allowed by C03: containers need not end on a non-blank line); everything else must be identical
+                em, gm = exp[i][-2], got[i][-2]
+                if em is not None and gm is not None and em[0] == gm[0] and em[1] == na and gm[1] == na + 1:
+                    continue
             if exp[i] != got[i]:
                 fld = "?"
                 for k, f in enumerate(FIELDS + ("map", "attrs")):
